@@ -20,6 +20,8 @@ inductive Cert where
   | unparsable   -- bytes that are not a DER certificate
   | empty        -- no bytes
   | nonRsa       -- a well-formed certificate with an ECDSA key
+  | chainOwnOther  -- a DER chain: the channel's certificate followed by a foreign (non-CA) RSA certificate
+  | chainOtherOwn  -- a DER chain: a foreign (non-CA) RSA certificate followed by the channel's certificate
   deriving Repr, DecidableEq
 
 /-- the private key the server signed with -/
@@ -81,6 +83,10 @@ inductive Outcome where
 def certKey : Cert → Option SigKey
   | .own => some .own
   | .otherRsa => some .other
+  -- `uapolicy.ParseCertificate` returns the FIRST certificate of a chain (`certs[0]`): the
+  -- certificate that identifies the sender; whatever follows it proves nothing
+  | .chainOwnOther => some .own
+  | .chainOtherOwn => some .other
   | _ => none
 
 /-- the cryptographic fact: the signature verifies with the certificate of the
@@ -113,7 +119,7 @@ def verifySessionSignature (f : CodeFacts) (m : Mode) (s : Server) : VerifyResul
   -- enc, err := uapolicy.Asymmetric(...); if err != nil { return err }
   | .wrongSize => .err
   -- err = enc.VerifySignature(append(s.cfg.Certificate, nonce...), signature)
-  | .own | .otherRsa => if sigVerifies s then .ok else .err
+  | .own | .otherRsa | .chainOwnOther | .chainOtherOwn => if sigVerifies s then .ok else .err
 
 /-- result of `CreateSession`: the session pointer (nil or not) and the error -/
 inductive Created where
